@@ -1524,6 +1524,32 @@ fn fam_keyof(_func: Option<&str>, only: Option<u64>) {
             Err(_) => {}
         }
     } } }
+    // a union with a primitive member (a literal, a whole basic type, undefined): primitives have no keys in beff,
+    // so the union has none
+    for a in &subsets { for prim in 0..5 {
+        if !rep.want() { continue; }
+        let mut ctx = SemTypeContext::new();
+        let mut vs = BTreeMap::new();
+        for k in a { vs.insert(k.to_string(), Rc::new(SemTypeContext::string())); }
+        let ta = Rc::new(ctx.mapping_definition(vs, None));
+        let (pname, pt): (&str, SemType) = match prim {
+            0 => ("\"x\"", SemTypeContext::string_const(strc("x"))),
+            1 => ("1", SemTypeContext::number_const(num(1))),
+            2 => ("undefined", SemTypeContext::undefined()),
+            3 => ("number", SemTypeContext::number()),
+            _ => ("true", SemTypeContext::boolean_const(true)),
+        };
+        let t = match ta.union(&Rc::new(pt)) { Ok(x) => x, Err(_) => continue };
+        let descr = format!("keyof ({{{:?}}} | {})", a, pname);
+        match ctx.keyof(t) {
+            Ok(r) => match r.is_empty(&mut ctx) {
+                Ok(true) => {}
+                Ok(false) => rep.fail(descr, format!("keyof = {:?}", r), "never (a primitive member has no keys)".into()),
+                Err(e) => rep.fail(descr, format!("is_empty Err({})", e), "true".into()),
+            },
+            Err(_) => {}
+        }
+    } }
     rep.print();
 }
 
